@@ -287,6 +287,23 @@ Proof.
   exact (disjoint_mem _ _ _ Hd Hm Ht).
 Qed.
 
+Theorem safe_ret_except_sound allowed p : safe_ret_except allowed p = true ->
+  forall st st', init_ok p st -> exec (body p) st st' ->
+  forall b, In b (rets st') ->
+  cached st' b = false /\ (forall i, org st' b = LArg i -> existsb (Nat.eqb i) allowed = true).
+Proof.
+  unfold safe_ret_except. intros Hs st st' Hi He b Hb.
+  apply andb_prop in Hs. destruct Hs as [Hs Hw]. apply andb_prop in Hs. destruct Hs as [Hv Hnc].
+  split.
+  - assert (H2 : safe_ret p = true) by (unfold safe_ret; rewrite Hv, Hnc; reflexivity).
+    exact (safe_ret_sound p H2 st st' Hi He b Hb).
+  - intros i Ho. destruct (valid_parts _ _ Hv) as [Hc HG].
+    pose proof (preserve st _ HG _ _ _ He Hc (sat_init _ _ _ Hv Hi)) as Hsat.
+    destruct (s_rets _ _ _ Hsat b Hb) as [_ Hm]. rewrite Ho in Hm.
+    unfold ret_args_within in Hw. apply mem_In in Hm.
+    exact (forallb_In _ _ _ Hw Hm).
+Qed.
+
 Theorem ret_not_arg_sound i p : (let A := analyze p in valid p A && ret_not_arg i A) = true ->
   forall st st', init_ok p st -> exec (body p) st st' ->
   forall b, In b (rets st') -> org st' b <> LArg i.
